@@ -55,6 +55,20 @@ def parseInstsN (s : String) : Option (List InstCfg × List Nat × Bool) :=
 def parseInsts (s : String) : Option (List InstCfg × Bool) :=
   (parseInstsN s).map fun r => (r.1, r.2.2)
 
+/-- forced overlap scripts of the periodic reader (harness: gated external Producer / gated exporter).  ForceFlush is
+served by the reader's run loop, which also performs the interval exports, so a ForceFlush issued while an interval
+export (or another ForceFlush) is in flight waits for it: the scripts are the sequential histories below.
+`ovltf r j a v` = tick r, Add while that export is parked between collecting and exporting, ForceFlush;
+`ovlff r j a v` = ForceFlush, Add, ForceFlush; `shutslow` = Shutdown with the caller's own generous deadline against an
+exporter slower than the reader's timeout: the caller's deadline has priority, the final payload is exported. -/
+def expandForced (groups : List (List String)) : List (List String) :=
+  groups.flatMap fun g =>
+    match g with
+    | ["ovltf", r, j, a, v] => [["tick", r], ["add", j, a, v], ["flush"]]
+    | ["ovlff", _, j, a, v] => [["flush"], ["add", j, a, v], ["flush"]]
+    | ["shutslow"] => [["shut"]]
+    | _ => [g]
+
 def parseOp : List String → Option Op
   | ["add", j, a, v] => do pure (.add (← parseNat j) (← parseNat a) (← parseInt v))
   | ["col", r] => do pure (.col (← parseNat r))
@@ -329,7 +343,8 @@ def stepLine (_ : Unit) (toks : List String) : Unit × Option Verdict :=
     let r : Option Verdict := do
       let rs ← (rstr.splitOn ",").mapM parseReader
       let (is, names, hasCb) ← parseInstsN istr
-      let rawOps ← (splitBar rest).mapM parseOp
+      let groups := splitBar rest
+      let rawOps ← (expandForced groups).mapM parseOp
       -- instrument objects created again with the same identity share the owner's stream (Sys.lean, `ownerOf`)
       let ops := rawOps.map (Op.resolve is names)
       let model := (Sys.run rs is ops hasCb).recs
@@ -337,7 +352,10 @@ def stepLine (_ : Unit) (toks : List String) : Unit × Option Verdict :=
       match obs.mapM parseRec with
       | none => pure { agree := false, spec := "FAIL", nontrivial := false, branches := "unparsed-observation", model := " ".intercalate mstr }
       | some recs =>
-        let spec := seqOracle rs is ops recs
+        -- every collection the history performs returns its data exactly once, in order: the (stamp, reader, status)
+        -- sequence of the observed records is the one the history determines
+        let keysOk := recs.map (fun rc => (rc.op, rc.reader, rc.ok)) == model.map (fun rc => (rc.op, rc.reader, rc.ok))
+        let spec := seqOracle rs is ops recs && keysOk
         let hasDelta := model.any fun rc => rc.streams.any fun st => st.2.1 == .delta
         let hasCum := model.any fun rc => rc.streams.any fun st => st.2.1 == .cumulative
         let periodicRec := model.any fun rc => match rs[rc.reader]? with | some c => c.periodic | none => false
@@ -353,6 +371,9 @@ def stepLine (_ : Unit) (toks : List String) : Unit × Option Verdict :=
           tagIf (rs.length > 1) "multi-reader" ++ tagIf midCancel "cancel-during-aggregation" ++
           tagIf (preCancel && hasCb && errRec) "abandoned-before-aggregation" ++ tagIf (preCancel && !hasCb) "cancelled-ctx-ignored" ++
           tagIf rejecting "absent-stream" ++
+          tagIf (groups.any fun g => g.head? == some "ovltf") "flush-overlapping-interval-export" ++
+          tagIf (groups.any fun g => g.head? == some "ovlff") "overlapping-flushes" ++
+          tagIf (groups.contains ["shutslow"]) "shutdown-own-deadline-slow-exporter" ++
           tagIf ((List.range is.length).any fun j => names.getD j j != j && ownerOf is names j == j) "same-name-different-stream" ++
           tagIf ((List.range is.length).any fun j => ownerOf is names j != j) "identical-recreation"
         pure { agree := mstr == obs, spec := if spec then "ok" else "FAIL",
